@@ -78,7 +78,13 @@ type Exec struct {
 	hfacts   []*Term // instantiated axioms for uninterpreted functions (sha256)
 	happs    []*Term
 	mon      monitors
-	newWork  [][]int32
+	newWork  []newItem
+	rep      map[*Term]*Term
+	substMemo map[*Term]*Term
+	dirty    bool
+	model    assignment
+	prefixModel assignment
+	auditCtr int
 	pathSym  bool // some property assertion on this path still contained a symbolic variable
 	panicsOK int  // >0: inside verifrt.Panics(f)
 	pending  []pendingAssert
@@ -98,6 +104,11 @@ type pathResult struct {
 	funcs       map[string]int
 	sampleSMT   string
 	stubs       map[string]int
+	rewrites    int
+	audits      int
+	auditFail   []string
+	byModel     int
+	folded      int
 }
 
 const (
@@ -120,20 +131,56 @@ func (ex *Exec) assume(t *Term) {
 		}
 		return
 	}
-	if v, ok := ex.known[t]; ok {
-		if !v {
-			panic(pathAbort{"infeasible"})
-		}
-		return
+	c := ex.canon(t)
+	if c == tTrue {
+		return // already implied by the equalities / atoms on the path
 	}
-	ex.known[t] = true
-	ex.known[mkNot(t)] = false
+	if c == tFalse {
+		ex.auditInfeasible(t)
+		panic(pathAbort{"infeasible"})
+	}
 	ex.pc = append(ex.pc, t)
 	if ex.syncedC {
 		ex.cvc.Assert(t)
 	}
 	if ex.syncedZ {
 		ex.z3.Assert(t)
+	}
+	if ex.model != nil && !holds(t, ex.model) {
+		ex.model = nil
+	}
+	if !ex.addFact(c) || (ex.dirty && !ex.recanon()) {
+		ex.auditInfeasible(nil)
+		panic(pathAbort{"infeasible"})
+	}
+}
+
+// auditInfeasible: the rewriting layer declared pc ∧ t infeasible; confirm with cvc5 on a sample.
+func (ex *Exec) auditInfeasible(t *Term) {
+	ex.res.rewrites++
+	n := ex.sh.cfg.AuditEvery
+	if n <= 0 || ex.concreteMode() {
+		return
+	}
+	ex.auditCtr++
+	if ex.auditCtr%n != 0 {
+		return
+	}
+	ex.res.audits++
+	ex.syncC()
+	var r string
+	if t != nil {
+		r = ex.cvc.Check(t)
+	} else {
+		r = ex.cvc.Check(nil)
+	}
+	ex.cvc.Pop()
+	if r == "sat" {
+		q := "<path condition>"
+		if t != nil {
+			q = t.smt()
+		}
+		ex.res.auditFail = append(ex.res.auditFail, "rewriting declared infeasible, cvc5 says sat: "+q)
 	}
 }
 
@@ -160,82 +207,171 @@ func (ex *Exec) syncZ() {
 }
 
 // simp applies the facts already on the path.
-func (ex *Exec) simp(t *Term) *Term {
-	if v, ok := ex.known[t]; ok {
-		return mkBool(v)
-	}
-	switch t.Op {
-	case "not":
-		return mkNot(ex.simp(t.Args[0]))
-	case "and":
-		as := make([]*Term, len(t.Args))
-		for i, a := range t.Args {
-			as[i] = ex.simp(a)
-		}
-		return mkAnd(as...)
-	}
-	return t
-}
+func (ex *Exec) simp(t *Term) *Term { return ex.canon(t) }
 
-// feasible asks the exploration solver whether pc ∧ t is satisfiable; unknown counts as feasible.
-func (ex *Exec) feasible(t *Term) bool {
-	t = ex.simp(t)
-	if t == tTrue {
-		return true
+// feasibleM decides whether pc ∧ t is satisfiable. A verified assignment proves "feasible" without the solver;
+// rewriting to false proves "infeasible" (audited); everything else is the solver's answer (unknown = feasible).
+func (ex *Exec) feasibleM(t *Term) (bool, assignment) {
+	c := ex.canon(t)
+	if c == tFalse {
+		ex.auditInfeasible(t)
+		return false, nil
 	}
-	if t == tFalse {
-		return false
+	if ex.concreteMode() {
+		return c == tTrue, nil
+	}
+	if ex.model != nil && holds(t, ex.model) {
+		ex.res.byModel++
+		dbg[0]++
+		return true, ex.model
+	}
+	if ex.model == nil {
+		dbg[3]++
+	}
+	if !ex.sh.cfg.NoFast {
+		cand := ex.searchModel(t)
+		if cand != nil {
+			ex.res.byModel++
+			dbg[1]++
+			return true, cand
+		}
+		dbg[2]++
+		if dbgFail != nil && dbg[2]%500 == 1 {
+			dbgFail(ex, t)
+		}
+	}
+	if c == tTrue {
+		return true, nil
+	}
+	if !ex.sh.cfg.NoFast && ex.refuted(t) {
+		ex.auditInfeasible(t)
+		return false, nil
 	}
 	ex.syncC()
 	r := ex.cvc.Check(t)
+	var m assignment
+	if r == "sat" && !ex.sh.cfg.NoFast {
+		m = ex.fetchModel(t)
+	}
 	ex.cvc.Pop()
 	if r == "unknown" {
 		ex.syncZ()
 		r = ex.z3.Check(t)
 		ex.z3.Pop()
 	}
-	return r != "unsat"
+	return r != "unsat", m
+}
+
+// fetchModel reads cvc5's model for the variables of pc ∧ t (solver still pushed) and keeps it if it verifies.
+func (ex *Exec) fetchModel(t *Term) assignment {
+	seen := map[*Term]bool{}
+	var vars []*Term
+	add := func(x *Term) {
+		for _, v := range x.vs {
+			if !seen[v] {
+				seen[v] = true
+				vars = append(vars, v)
+			}
+		}
+	}
+	for _, p := range ex.pc {
+		add(p)
+	}
+	add(t)
+	if len(vars) == 0 {
+		return nil
+	}
+	raw := ex.cvc.ModelAll(vars)
+	if raw == nil {
+		return nil
+	}
+	m := assignment{}
+	for _, v := range vars {
+		val, ok := raw[v.Name]
+		if !ok {
+			return nil
+		}
+		switch v.Sort {
+		case SStr:
+			m[v] = mkStr(parseSMTString(val))
+		case SInt:
+			m[v] = mkInt(parseSMTInt(val))
+		case SBool:
+			m[v] = mkBool(strings.TrimSpace(val) == "true")
+		}
+	}
+	if !ex.verified(m, t) {
+		return nil
+	}
+	return m
+}
+
+func (ex *Exec) feasible(t *Term) bool {
+	ok, _ := ex.feasibleM(t)
+	return ok
 }
 
 // choose makes one decision among alternative constraints.
 func (ex *Exec) choose(alts []*Term) int {
 	ex.res.decisions++
 	if ex.concreteMode() {
+		for i, a := range alts {
+			if ex.canon(a) == tTrue {
+				return i
+			}
+		}
 		panic(pathAbort{"unsupported: symbolic decision in concrete mode"})
 	}
 	if ex.pos < len(ex.prefix) {
 		c := int(ex.prefix[ex.pos])
 		ex.pos++
 		ex.trace = append(ex.trace, int32(c))
+		if ex.pos == len(ex.prefix) && ex.prefixModel != nil {
+			ex.model = ex.prefixModel
+		}
 		ex.assume(alts[c])
 		return c
 	}
 	var feas []int
+	var models []assignment
 	for i, a := range alts {
 		// the path condition is satisfiable and the alternatives are exhaustive: when every other
 		// alternative is infeasible the last one needs no query
 		if i == len(alts)-1 && len(feas) == 0 && ex.exhaustive(alts) {
 			feas = append(feas, i)
+			models = append(models, nil)
 			break
 		}
-		if ex.feasible(a) {
+		if ok, m := ex.feasibleM(a); ok {
 			feas = append(feas, i)
+			models = append(models, m)
 		}
 	}
 	if len(feas) == 0 {
 		panic(pathAbort{"infeasible"})
 	}
-	for _, j := range feas[1:] {
+	for k, j := range feas[1:] {
 		p := make([]int32, len(ex.trace)+1)
 		copy(p, ex.trace)
 		p[len(ex.trace)] = int32(j)
-		ex.newWork = append(ex.newWork, p)
+		ex.newWork = append(ex.newWork, newItem{prefix: p, model: models[k+1]})
 	}
 	c := feas[0]
 	ex.pos++
 	ex.trace = append(ex.trace, int32(c))
+	if models[0] != nil {
+		ex.model = models[0]
+	}
 	ex.assume(alts[c])
 	return c
+}
+
+var dbg [8]int64
+var dbgFail func(ex *Exec, t *Term)
+
+type newItem struct {
+	prefix []int32
+	model  assignment
 }
 
 // chooseFree is an unconstrained n-way decision.
@@ -251,13 +387,16 @@ func (ex *Exec) chooseFree(n int) int {
 		c := int(ex.prefix[ex.pos])
 		ex.pos++
 		ex.trace = append(ex.trace, int32(c))
+		if ex.pos == len(ex.prefix) && ex.prefixModel != nil {
+			ex.model = ex.prefixModel
+		}
 		return c
 	}
 	for j := 1; j < n; j++ {
 		p := make([]int32, len(ex.trace)+1)
 		copy(p, ex.trace)
 		p[len(ex.trace)] = int32(j)
-		ex.newWork = append(ex.newWork, p)
+		ex.newWork = append(ex.newWork, newItem{prefix: p, model: ex.model})
 	}
 	ex.pos++
 	ex.trace = append(ex.trace, 0)
@@ -513,8 +652,22 @@ func (ex *Exec) assertTerm(t *Term, site string) {
 func (ex *Exec) assertNow(pa *pendingAssert) {
 	q := pa.outsideQuery()
 	proved := false
+	folded := q != tFalse && ex.canon(q) == tFalse
+	if folded {
+		// the negated assertion rewrites to false under the equalities on the path
+		ex.auditCtr++
+		if ex.sh.cfg.Tier != "thorough" && (ex.sh.cfg.AuditEvery <= 0 || ex.auditCtr%ex.sh.cfg.AuditEvery != 0) {
+			ex.res.folded++
+			ex.assume(pa.t)
+			return
+		}
+		ex.res.audits++
+	}
 	if q != tFalse {
 		verdict, model, by := ex.checkProp(q, true)
+		if folded && verdict != "unsat" {
+			ex.res.auditFail = append(ex.res.auditFail, "assertion folded to true by rewriting but solver answered "+verdict+" at "+pa.site)
+		}
 		if ex.res.sampleSMT == "" && q.hasVars() {
 			ex.res.sampleSMT = ex.dumpQuery(q)
 		}
@@ -546,7 +699,15 @@ func (ex *Exec) assertNow(pa *pendingAssert) {
 			ex.addViolation(Violation{Site: pa.site, Kind: "assert", Region: rn, Model: model, Values: ex.replayValues(model), SMT: ex.dumpQuery(qi), Msg: "solver=" + by})
 		}
 	}
-	if proved || ex.feasible(pa.t) {
+	ok := proved
+	if !ok {
+		var m assignment
+		ok, m = ex.feasibleM(pa.t)
+		if m != nil {
+			ex.model = m
+		}
+	}
+	if ok {
 		ex.assume(pa.t)
 	} else {
 		panic(pathAbort{"assert always false here"})
